@@ -28,7 +28,7 @@ def CPartOK (env : Env F) (strict : Bool) (c : CPart F) : Prop :=
   ∃ ed, env.dict.entity? c.name = some ed ∧
     ∀ (l : List Byte) (sk : Bool) (rest : List Byte),
       ∃ sk', instSTEPread env strict ed.ownAttrs (G l (40 :: (c.body ++ rest)) sk) =
-        .ok ⟨.null, c.vals, G ((40 :: c.body).reverse ++ l) rest sk'⟩
+        .ok ⟨.null, c.vals, G ((40 :: c.body).reverse ++ l) rest sk', .null⟩
 
 theorem setPart_names (ps : List (MPart F)) (n : String) (v : List (MVal F)) :
     (setPart ps n v).map (·.name) = ps.map (·.name) := by
@@ -62,7 +62,7 @@ theorem complexLoop_parts (env : Env F) (strict : Bool) (head : String) (cs : Li
       refine ⟨41 :: l, sk, ?_⟩
       unfold complexLoop
       simp only [renderCParts, List.nil_append, peekC_good, beq_self_eq_true, if_true, getInto_good, pure, Except.pure]
-      cases env.cfg.complexMergesParts <;> rfl
+      cases env.cfg.complexMergesParts <;> cases env.cfg.complexMergesAttrErrors <;> rfl
   | cons c cs ih =>
     intro fuel ps l sk rest hf hnames
     obtain ⟨hn0, hns, hsA, hsB, ed, hent, hrd⟩ := hok c (by simp)
@@ -119,7 +119,8 @@ theorem complexLoop_parts (env : Env F) (strict : Bool) (head : String) (cs : Li
       · simp only [hh, if_true, hrec, List.foldl_cons]
       · have hh' : (c.name == head) = false := by simpa using hh
         simp only [hh', Bool.false_eq_true, if_false, List.foldl_cons]
-        rw [show Sev.null.greater Sev.null = Sev.null from rfl, hrec]
+        rw [show Sev.null.greater (if env.cfg.complexMergesParts = true then Sev.null else Sev.null) = Sev.null from by
+          cases env.cfg.complexMergesParts <;> rfl, hrec]
 
 theorem renderCParts_length (cs : List (CPart F)) : cs.length ≤ (renderCParts cs).length := by
   induction cs with
